@@ -9,6 +9,19 @@ ENGINES = [
 
 NOT_APPLICABLE = {}
 
+ENGINES += [
+    {'name': 'aiosched', 'path': 'vlib/aiosched.py', 'serves_properties': ['C16', 'C20', 'C21', 'C24', 'C26', 'C40'],
+     'kind_free_text': 'asyncio event loop with harness-owned virtual clock and explicit drain/advance (schedule = op order)'},
+    {'name': 'minimysql', 'path': 'vlib/minimysql/', 'serves_properties': ['C01', 'C02', 'C03', 'C04', 'C05', 'C06', 'C07', 'C08', 'C09', 'C10', 'C11', 'C12', 'C14', 'C27', 'C39', 'C41'],
+     'kind_free_text': 'in-memory interpreter for the MySQL 8 dialect subset used by the batch service; executes the repository\'s own triggers/procedures/queries behind fake pymysql/aiomysql drivers'},
+    {'name': 'batchsim', 'path': 'vlib/batchsim/', 'serves_properties': ['C01', 'C02', 'C03', 'C04', 'C05', 'C06', 'C07', 'C08', 'C09', 'C10', 'C12', 'C14', 'C39', 'C41'],
+     'kind_free_text': 'the real batch front-end and driver Python (create/commit/cancel, schedule/start/complete, scheduler and canceller loop bodies, clean-up jobs) wired to minimysql in one process; histories are JSON op lists'},
+    {'name': 'jvmslice', 'path': 'vlib/jvmslice.py', 'serves_properties': ['C31', 'C34', 'C37'],
+     'kind_free_text': 'cuts named definitions out of the repository\'s Scala sources, compiles them with the bundled Scala 3 compiler and runs them in a JVM as a differential partner'},
+    {'name': 'hailenv', 'path': 'vlib/hailenv.py', 'serves_properties': ['C31', 'C32', 'C33', 'C34', 'C35', 'C36', 'C38'],
+     'kind_free_text': 'imports the hail Python package without an engine (PEG shim for parsimonious, FakeBackend); vlib/hailgen.py holds the shared type/value generators'},
+]
+
 CHECKS = {
     'C25': dict(
         level='exploration',
@@ -47,4 +60,29 @@ CHECKS = {
         technique='Hypothesis op lists (lookup / load_ok / load_fail / cancel / advance) on a harness-owned loop with a virtual monotonic clock; invariant oracle with per-lookup load attribution',
         text='32k histories per quick run with 1-3 slots, 4 keys and clock steps at L-1, L, L+1; checks capacity, freshness, single-flight and that a lookup fails only for its own load failure or its own cancellation.',
         note='prometheus timing wrapper replaced by a pass-through; trusts vlib/aiosched.py. Found and fixed: cancelling one caller failed its co-waiters.'),
+    'C31': dict(
+        level='exploration',
+        technique='Hypothesis type/name generation + BMP single-character enumeration; Python round-trips and a differential against the real IRLexer/StringEscapeUtils cut from the Scala sources and compiled (jvmslice)',
+        text='~67k cases per quick run: dtype(str/pretty/repr(t)) == t, unescape(escape(s)) == s, and the compiled engine lexer must tokenise every emitted type string / identifier into the predicted token skeleton with the same names.',
+        note='Trusts the PEG shim (re vs regex module), the slicer and its 2 stubs, Scala 3 vs 2.12 on this code. Five known findings (escape mismatches between Python and the engine lexer) are listed in known_findings.json.'),
+    'C32': dict(
+        level='exploration',
+        technique='Hypothesis (type, value) generation from vlib/hailgen.py plus a deterministic grid; round-trip oracle through text JSON with Hail value equality (NaN == NaN, -0.0 distinct)',
+        text='~21k well-typed nested values per quick run through _convert_to_json_na -> json.dumps -> loads -> _convert_from_json_na and the _to_json/_from_json pair; result must be equal and typecheck.',
+        note='Trusts hailgen builders/canon equality and hailenv. Two defects found were fixed (tdict missing values; Struct field named self).'),
+    'C33': dict(
+        level='exploration',
+        technique='Hypothesis (type, value) generation; round-trip oracle plus a layout differential: an independent decoder parameterised by the EType descriptor parsed from EType.fromPythonTypeEncoding in the Scala source',
+        text='~18k values per quick run: _from_encoding(_to_encoding(v)) == v with all bytes consumed, and the reference decoder driven by the engine-declared descriptor must consume exactly the same bytes and yield v.',
+        note='The engine\'s generated decoders are not executed; per-EType layout semantics are a trusted transcription; descriptor parser fails closed (exit 2) if the Scala function changes shape.'),
+    'C34': dict(
+        level='exploration',
+        technique='exhaustive grids + Hypothesis boundary search; differential between Python byte-level call packing and compiled slices of Call.scala / Genotype.scala, plus an exact integer reference',
+        text='All calls j,k <= 64 x ploidy x phase, gt-index bijection on [0,10^6) and the top 10^5 below 2^29, generated calls/words up to the 2^29 limit: same 32-bit word on both sides, each side decodes the other, allele-pair <-> index is a bijection in VCF order.',
+        note='Trusts the slicer, <=5-line stubs, Scala 3 vs 2.12 on integer code, the isqrt reference. Calls outside the range both sides document are counted, not judged.'),
+    'C37': dict(
+        level='exploration',
+        technique='the engine\'s Scala statistical functions run as compiled source slices against exact-integer / fixed-point / mpmath references over exhaustive small grids and Hypothesis-generated tables',
+        text='10^4 dense 2x2 tables, generated tables up to 3000 per cell, HWE triples exhaustive to 25^3 plus generated to 5000: p-values, statistics, odds ratios and CI limits against their definitions with stated tolerances; p in [0,1]; NaN exactly where degenerate.',
+        note='pchisqtail is substituted (commons-math3 for jdistlib); Scala 3 compile of 2.12 source; references in checks/c37.py. One known finding (uniroot absolute tolerance) is listed.'),
 }
